@@ -289,6 +289,30 @@ func c04VersionGate(p *load.Program, r *oblig.Report) {
 				hi = true
 			}
 		})
+		// the spelling of the test does not matter (`min <= v && v <= max`, or `v < min || max < v` skipping the
+		// field): what matters is the condition under which the field's codec is built
+		if !(lo && hi) {
+			an.EachInstrDeep(fn, func(_ *ssa.Function, ins ssa.Instruction) {
+				c, ok := ins.(*ssa.Call)
+				if !ok || c.Call.StaticCallee() == nil {
+					return
+				}
+				if n := an.RefFuncName(c.Call.StaticCallee()); n != "decodeFuncOf" && n != "encodeFuncOf" {
+					return
+				}
+				for _, g := range guardCanon(c) {
+					if strings.HasPrefix(g, "(") && strings.Contains(g, " >= ") {
+						parts := strings.SplitN(g[1:len(g)-1], " >= ", 2)
+						if strings.Contains(parts[0], "version") && strings.HasSuffix(parts[1], ".MinVersion") {
+							lo = true
+						}
+						if strings.HasSuffix(parts[0], ".MaxVersion") && strings.Contains(parts[1], "version") {
+							hi = true
+						}
+					}
+				}
+			})
+		}
 		r.Check(lo && hi, rule, "protocol."+name+" includes a field iff min <= version <= max", p.Pos(fn.Pos()), "tag.MinVersion <= version && version <= tag.MaxVersion", fmt.Sprintf("lower=%v upper=%v", lo, hi))
 	}
 }
